@@ -2049,7 +2049,19 @@ impl<'a, 'b, W: Write> SerializeTupleStruct for TupleSer<'a, 'b, W> {
                         if self.ser.in_flow == 0 {
                             // Stage the comment so scalar/alias serializers append it inline via write_end_of_scalar.
                             if !comment.is_empty() {
-                                let sanitized = comment.replace('\n', " ");
+                                // A comment ends at the first line break. Every character a
+                                // YAML reader treats as one (and any other control character)
+                                // would end it early and turn the rest into document content.
+                                let sanitized: String = comment
+                                    .chars()
+                                    .map(|c| {
+                                        if c.is_control() || matches!(c, '\u{2028}' | '\u{2029}') {
+                                            ' '
+                                        } else {
+                                            c
+                                        }
+                                    })
+                                    .collect();
                                 self.ser.pending_inline_comment = Some(sanitized);
                             }
                             // Serialize the inner value as-is. Complex values will ignore the comment (it will be cleared).
